@@ -1,24 +1,81 @@
 import Driver.Util
+import Driver.C06
 import Exetera.Model.Csv
 open Lean Exetera Exetera.Csv
 namespace Driver.C05
 
 def mat (m : List (List Nat)) : Json := Json.arr (m.map Driver.nats).toArray
 
+/-- the `int32` column of the older `csv_import` cases: `Numeric('int32')`, allow_empty, invalid value 0 -/
+def int32Kind : FieldKind :=
+  .numeric (.intRange (-2147483648) 2147483647) .allowEmpty [48] (.int 0)
+
+/-- an importer definition: the legacy spellings of `csv_import` (`indexed`, `fixed`, `int`) and the C06 column descriptors
+    of `csv_typed` (`categorical`, `leaky`, `bool`, `int` with dtype range, `float` with its parse table, `datetime`, `date`) -/
 def kindOfJson (j : Json) : Except String FieldKind := do
   let k ← j.getObjValAs? String "kind"
-  if k == "indexed" then pure .indexed
-  else if k == "fixed" then do
-    let n ← j.getObjValAs? Nat "n"
+  match k with
+  | "indexed" => pure .indexed
+  | "fixed" =>
+    let n ← (j.getObjValAs? Nat "n" <|> j.getObjValAs? Nat "strlen")
     pure (.fixed n)
-  else if k == "int" then pure .int
-  else throw s!"bad kind {k}"
+  | "categorical" => pure (.categorical (← Driver.C06.getCats j))
+  | "leaky" => pure (.leaky (← Driver.C06.getCats j))
+  | "bool" =>
+    let mode ← Driver.C06.modeOf (← j.getObjValAs? String "mode")
+    pure (.bool mode (← j.getObjValAs? Bool "invalid_truth"))
+  | "int" =>
+    match j.getObjValAs? String "mode" with
+    | .error _ => pure int32Kind
+    | .ok m =>
+      let mode ← Driver.C06.modeOf m
+      let lo ← j.getObjValAs? Int "lo"
+      let hi ← j.getObjValAs? Int "hi"
+      let it ← Driver.C06.unhex (← j.getObjValAs? String "invalid_text")
+      let iv ← j.getObjValAs? Int "invalid_val"
+      pure (.numeric (.intRange lo hi) mode it (.int iv))
+  | "float" =>
+    let mode ← Driver.C06.modeOf (← j.getObjValAs? String "mode")
+    let it ← Driver.C06.unhex (← j.getObjValAs? String "invalid_text")
+    let iv ← j.getObjValAs? String "invalid_val"
+    let pt ← Driver.C06.getPTable j
+    pure (.numeric (.table pt) mode it (.tok iv))
+  | "datetime" => pure .datetime
+  | "date" => pure .date
+  | _ => throw s!"bad kind {k}"
+
+def numJson : NumVal → Json
+  | .int v => Json.num (JsonNumber.fromInt v)
+  | .tok s => Json.str s
+
+/-- rows of `n` bytes of a flat `S<n>` buffer -/
+def rowsOf (n : Nat) (d : List Nat) : Nat → List (List Nat)
+  | 0 => []
+  | k + 1 => if d.isEmpty || n == 0 then [] else d.take n :: rowsOf n (d.drop n) k
 
 def impJson (i : Imp) : Json :=
   match i.kind with
   | .indexed => Json.mkObj [("idx", Driver.nats i.idx), ("vals", Driver.nats i.vals)]
-  | .fixed _ => Json.mkObj [("rows", Json.arr (i.rows.map Driver.nats).toArray)]
-  | .int => Json.mkObj [("nums", Driver.nats i.nums), ("valids", toJson i.valids)]
+  -- (the harness reads an `S<n>` element back as `bytes`: numpy drops the trailing NULs)
+  | .fixed n => Json.mkObj [("rows", Json.arr ((rowsOf n i.data i.data.length).map
+      (fun r => Driver.nats (Exetera.Transforms.rstripNul r))).toArray)]
+  | .numeric _ _ _ _ => Json.mkObj [("nums", Json.arr (i.nums.map numJson).toArray), ("valids", toJson i.valids)]
+  | _ => Json.null
+
+/-- a destination field in the shape `checks/harness/c06.py` compares (`cmp_col`) -/
+def typedJson (i : Imp) : Json :=
+  match i.kind with
+  | .indexed => Json.mkObj [("idx", Driver.nats i.idx), ("vals", Driver.nats i.vals)]
+  | .fixed _ => Json.mkObj [("data", Json.str (Driver.C06.toHex i.data))]
+  | .categorical _ => Json.mkObj [("data", Driver.ints i.codes)]
+  | .leaky _ => Json.mkObj [("data", Driver.ints i.codes), ("ft_indices", Driver.nats i.idx),
+                             ("ft_values", Json.str (Driver.C06.toHex i.vals))]
+  | .bool _ _ => Json.mkObj [("data", Driver.C06.bools i.bools), ("valid", Driver.C06.bools i.valids)]
+  | .numeric _ _ _ _ => Json.mkObj [("data", Json.arr (i.nums.map numJson).toArray), ("valid", Driver.C06.bools i.valids)]
+  | .datetime => Json.mkObj [("ts", Driver.ints i.codes), ("day", Json.arr (i.days.map (fun d => Json.str (Driver.C06.toHex d))).toArray),
+                             ("set", Driver.C06.bools i.valids)]
+  | .date => Json.mkObj [("ts", Driver.ints i.codes), ("day", Json.arr (i.days.map (fun d => Json.str (Driver.C06.toHex d))).toArray),
+                         ("set", Driver.C06.bools i.valids)]
 
 def optList (j : Json) (k : String) : Except String (Option (List String)) :=
   match j.getObjVal? k with
@@ -84,6 +141,27 @@ def handle : Driver.Handler := fun op j =>
     pure <| Driver.outE (fun (o : COut) =>
       Json.mkObj [("rows", toJson o.rows),
                   ("fields", Json.mkObj (o.fields.map (fun f => (f.name, impJson f.imp))))])
+      (readCsv file names schema incl excl crs fuel)
+  | "csv_typed" => some do
+    -- the composed model: the CSV driver feeding the C06 importer models, one `import_part` per kernel call
+    let file ← Driver.get? (List Nat) j "file"
+    let names ← Driver.get? (List String) j "names"
+    let crs ← Driver.get? Nat j "crs"
+    let fuel ← Driver.get? Nat j "fuel"
+    let sj ← Driver.get? (List Json) j "schema"
+    let schema ← sj.mapM (fun e => do
+      let n ← e.getObjValAs? String "name"
+      let k ← kindOfJson e
+      pure (n, k))
+    let incl ← optList j "include"
+    let excl ← optList j "exclude"
+    -- coverage only: the full flag of every kernel call of this run (what `readCsv` passes to `readFile`, replayed)
+    let use := fieldsToUse names incl excl
+    let flags := flagsOf file crs names.length (columnOffsets (names.map (fun k => (kindOf schema k).fieldSize)) crs)
+      (use.map (fun k => names.idxOf k)) (use.map (fun k => ({ kind := kindOf schema k } : Imp))) fuel
+    pure <| Driver.outE (fun (o : COut) =>
+      Json.mkObj [("rows", toJson o.rows), ("order", toJson (o.fields.map (·.name))),
+                  ("fields", Json.mkObj (o.fields.map (fun f => (f.name, typedJson f.imp)))), ("flags", toJson flags)])
       (readCsv file names schema incl excl crs fuel)
   | _ => none
 
